@@ -150,8 +150,20 @@ fn plan(p: &mut Plan<'_>) {
             p.assumptions = vec!["only the system-level clauses are claimed (DESIGN §5 C06): the stack never initiates key updates and always uses 8-byte connection ids", "frame equality is judged on kind and the fields both vantage points log"];
         }
         "C15" => {
-            p.part(netsim::NetSim { mode: netsim::Mode::C15 }, 1500, 150_000, "whole-stack runs biased to the unvalidated phase: RSA chain (first server flight > 3x1200 bytes), client second-flight loss/truncation/duplication so the server retransmits while unvalidated; the network's per-address byte ledger is checked after every server send until the server first processes a Handshake packet; non-trivial = a fault fired and handshake progressed; distinct = trace hash");
+            p.part(netsim::NetSim { mode: netsim::Mode::C15 }, 700, 150_000, "whole-stack runs biased to the unvalidated phase: RSA chain (first server flight > 3x1200 bytes), client second-flight loss/truncation/duplication so the server retransmits while unvalidated; the network's per-address byte ledger is checked after every server send until the server first processes a Handshake packet; non-trivial = a fault fired and handshake progressed; distinct = trace hash");
             p.assumptions = vec!["bytes delivered to the server's socket from the client address are an upper bound of what the server may count as received", "validation instant = the server's first packet_received qlog event of type handshake"];
+        }
+        "C17" => {
+            p.part(netsim::NetSim { mode: netsim::Mode::C17 }, 1200, 150_000, "whole-stack runs with a close event at a drawn virtual time (local close, peer close, both in the same millisecond, idle expiry with drawn timeouts incl. 0, path loss by blackhole) while drawn operations are parked (accept, open-until-blocked, datagram recv, handshaked, terminated) and streams are mid-transfer; completion times on the virtual clock, state order and silence after closing from qlog; non-trivial = a close/idle/path-loss event happened with operations parked; distinct = trace hash");
+            p.assumptions = vec!["release bound after termination: 1 s + 6 RTT of virtual time", "idle clauses only on fault-free runs; the endpoint terminating first is judged against the negotiated timeout"];
+        }
+        "C19" => {
+            p.part(netsim::NetSim { mode: netsim::Mode::C19 }, 1000, 100_000, "whole-stack runs in which both applications send unreliable datagrams of sizes around the peer's max_datagram_frame_size (0 = disabled, 1, 2, 100, 1200, 65535) under loss or loss-free; refusal rule, payload integrity (no merge/alter), order among delivered, and on loss-free uncongested runs every accepted datagram must reach the peer; non-trivial = datagrams were accepted; distinct = trace hash");
+            p.assumptions = vec!["RFC 9221: max_datagram_frame_size bounds the whole frame, the smallest encoding of a payload of n bytes is n+1", "netsim share only: the packetisation-boundary component run of DESIGN C19 is exercised through the real packetiser here"];
+        }
+        "C20" => {
+            p.part(netsim::NetSim { mode: netsim::Mode::C20 }, 250, 30_000, "each seeded whole-stack case (handshake, transfer, loss, close at a drawn time, idle expiry, path loss) is executed six times under exporter configurations no-op / discard-all / capturing / capturing+raw / filtered / shipped LegacySeqLogger into memory; wire and application traces must be identical; every captured event must serialise with the mandatory fields, parse back equal and convert to the legacy form without panicking; non-trivial = faults fired and progress; distinct = trace hash");
+            p.assumptions = vec!["event time stamps are wall-clock and excluded from comparisons", "for the legacy logger (own writer task) only the application trace is compared", "event-builder field-value enumeration is not claimed (input enumeration)"];
         }
         other => die(&format!("no check for property {other}")),
     }
